@@ -173,6 +173,29 @@ def run_roundtrip(case: dict) -> Outcome:
     again = S.serialize_packet(sport, dport, tag, got)
     if again != data:
         return Outcome("re-serialised bytes differ", "reserialise", nontrivial, tuple(classes))
+    # the same object serialised again after its fields changed (chunk objects are mutable and the transport fills them in
+    # step by step): it must serialise like a fresh object with those field values
+    def perturbed(v):
+        if isinstance(v, int):
+            return v ^ 1
+        if isinstance(v, bytes):
+            return v[:-1] if len(v) > 1 else v + b"\x07"
+        if isinstance(v, list):
+            return v[:-1]
+        return v
+
+    fresh = type(chunk)(flags=chunk.flags ^ 1)
+    chunk.flags ^= 1
+    for f in FIELDS[name]:
+        setattr(chunk, f, perturbed(getattr(chunk, f)))
+        setattr(fresh, f, getattr(chunk, f))
+    try:
+        second, expect = bytes(chunk), bytes(fresh)
+    except Exception as exc:
+        return Outcome(f"serialising {name} after changing its fields raised {exc!r}", "reuse-raised", nontrivial, tuple(classes))
+    if second != expect:
+        return Outcome(f"{name} serialised once, fields changed, serialised again: the bytes do not reflect the new field values "
+                       f"(differs from a fresh object with the same fields)", "reuse-stale", True, tuple(classes))
     # typed RE-CONFIG parameters: parse(bytes(x)) == x
     if name == "ReconfigChunk":
         for (t, v), (t2, raw) in zip(spec["typed_params"], got.params):
@@ -198,8 +221,11 @@ def burst_case(draw, tier="quick"):
     else:
         inner = draw(st.integers(0, (1 << (length - 2)) - 1)) if length > 2 else 0
         pattern = (1 << (length - 1)) | (inner << 1) | 1
-    return {"packet": base, "start_frac": draw(st.integers(0, 10**6)), "length": length,
-            "pattern": pattern}
+    case = {"packet": base, "start_frac": draw(st.integers(0, 10**6)), "length": length, "pattern": pattern}
+    if draw(st.integers(0, 5)) == 0:
+        # the bursts inside the checksum field that leave a "special" value there (the XOR mask is computed from the packet)
+        case["checksum_to"] = draw(st.sampled_from(["zero", "ones", "be-swapped", "plus-one", "header-word"]))
+    return case
 
 
 def apply_burst(data: bytes, start_bit: int, length: int, pattern: int) -> bytes:
@@ -218,10 +244,22 @@ def run_burst(case: dict) -> Outcome:
     pattern = case["pattern"] & ((1 << length) - 1)
     pattern |= 1 | (1 << (length - 1))
     start = case["start_frac"] % (total - length + 1)
+    if case.get("checksum_to"):
+        have = int.from_bytes(data[8:12], "big")
+        want = {"zero": 0, "ones": 0xFFFFFFFF, "be-swapped": int.from_bytes(data[8:12], "little"), "plus-one": (have + 1) & 0xFFFFFFFF,
+                "header-word": int.from_bytes(data[4:8], "big")}.get(case["checksum_to"], 0)
+        mask = have ^ want
+        if mask == 0:
+            return Outcome(None, None, False, ("burst-checksum-already-" + str(case["checksum_to"]),))
+        length = mask.bit_length() - ((mask & -mask).bit_length() - 1)  # first to last flipped bit
+        start = 64 + (32 - mask.bit_length())
+        pattern = mask >> ((mask & -mask).bit_length() - 1)
     bad = apply_burst(data, start, length, pattern)
     assert bad != data
     where = "checksum" if 64 <= start < 96 else ("header" if start < 64 else "body")
     classes = (f"burst-in-{where}", f"len{'1' if length == 1 else ('2-8' if length <= 8 else ('9-31' if length < 32 else '32'))}")
+    if case.get("checksum_to"):
+        classes += ("burst-checksum-to-" + str(case["checksum_to"]),)
     # "never reaches chunk processing": no chunk object may be constructed from the corrupted bytes.  The parser
     # dispatches through the module's CHUNK_TYPES table; every entry is wrapped by a counting stand-in for the call.
     built = []
@@ -272,6 +310,8 @@ def enum_bursts(tier: str):
             for pattern in sorted(pats):
                 for start in range(0, total - length + 1):
                     yield {"packet": pkt, "start_frac": start, "length": length, "pattern": pattern}
+        for to in ("zero", "ones", "be-swapped", "plus-one", "header-word"):
+            yield {"packet": pkt, "start_frac": 0, "length": 32, "pattern": 1, "checksum_to": to}
 
 
 def enum_data_lengths(tier: str):
